@@ -268,7 +268,7 @@ class Env:
     def act(self, kind, path=None, path2=None, mutating=False, data=None, **kw):
         """Called at every filesystem operation.  Returns None or the name of an injected error kind."""
         rec = {"i": self.n_actions, "kind": kind, "path": path, "path2": path2, "mutating": mutating,
-               "pid": self.pid, "op": self.cur_op, "op_seq": self.op_seq}
+               "pid": self.pid, "op": self.cur_op, "op_seq": self.op_seq, "effects_before": self.n_effects_step}
         if data is not None:
             rec["data"] = data
         rec.update(kw)
@@ -284,6 +284,8 @@ class Env:
 
     def effect(self, kind):
         self.n_effects_step += 1
+        if self.trace:
+            self.trace[-1]["done"] = True
 
     def begin_op(self, name):
         self.cur_op = name
@@ -622,6 +624,8 @@ def op_rename(I, src, dst, noclobber=False):
     env = I.env
     fail_if_injected(env.act("rename", src, dst, mutating=True))
     sp, sn, sino = env.vfs.walk(src, follow_last=False)
+    if sino is not None and env.trace:
+        env.trace[-1]["src_content"] = sino.sb if sino.kind == "file" else None
     if sino is None:
         raise FsErr("NotFound")
     dp, dn, dino = env.vfs.walk(dst, follow_last=False)
